@@ -37,7 +37,8 @@ def repo_root():
 def _tree_hash(repo, config):
     h = hashlib.sha256()
     h.update(config.encode())
-    h.update(b'builder-v2')
+    h.update(b'builder-v3')
+    h.update(os.path.abspath(repo).encode())      # debug-info paths are absolute: one cache entry per checkout location
     pdir = os.path.join(VERIF, 'engine', 'probes')
     if os.path.isdir(pdir):
         for pf in sorted(os.listdir(pdir)):
@@ -57,6 +58,9 @@ def _tree_hash(repo, config):
             for dp, dn, fn in os.walk(r):
                 dn.sort()
                 for f in sorted(fn):
+                    if f == 'of_build_config.h':
+                        continue    # written into the source tree by the project's own configure step (from .version and
+                        #             CMakeLists.txt, both hashed): absent in a fresh checkout, present after the first configure
                     if f.endswith(('.c', '.h', '.txt', '.cmake', '.in')) or f == '.version':
                         files.append(os.path.join(dp, f))
     for p in files:
@@ -82,6 +86,21 @@ def build_pdb(config='release', verbose=False):
     if os.path.exists(os.path.join(out, 'DONE')):
         return out
     os.makedirs(CACHE, exist_ok=True)
+    # one builder per tree: concurrent checks of the same tree wait for it instead of configuring the project in parallel (the
+    # project's configure step writes of_build_config.h into the source tree, so parallel configures race)
+    import fcntl
+    lock = open(os.path.join(CACHE, '.%s.lock' % key), 'w')
+    fcntl.flock(lock, fcntl.LOCK_EX)
+    try:
+        if os.path.exists(os.path.join(out, 'DONE')):
+            return out
+        return _build_locked(config, verbose, repo, out)
+    finally:
+        fcntl.flock(lock, fcntl.LOCK_UN)
+        lock.close()
+
+
+def _build_locked(config, verbose, repo, out):
     work = tempfile.mkdtemp(prefix='ofverif-')
     try:
         cdb = os.path.join(work, 'cdb')
